@@ -138,6 +138,7 @@ OrMoves(s) ==
       Members(g, k, inst) == {t \in W(g) : TopTag(t) = k /\ t.inst = inst}
       Ready(g, k, inst) ==
         \/ k = NoTag
+        \/ Len(Node(i, g).in) <= 1          \* a pure fork has nothing to wait for
         \/ \A u \in Toks(s) \ Members(g, k, inst) : k \notin SeqRange(u.tag)
       Cands == UNION { {<<g, TopTag(t), t.inst>> : t \in W(g)} : g \in NodesOfKind(i, "or") }
   IN { LET g    == c[1]
@@ -229,7 +230,7 @@ RequestedOncePerToken ==
 \* complete or holds only error/dead tokens: block-structured programs never
 \* deadlock
 Stuck(st) == Moves(st) = {} /\ ReqToks(st) = {}
-NoDeadToken == Stuck(s) => (Live(s) = {})
+NoDeadToken == (Stuck(s) /\ Live(s) = Toks(s)) => (Live(s) = {})
 CeasedOnlyWhenEmpty == s.ceased => Toks(s) = {}
 EventuallyQuiet == <>[](Moves(s) = {})
 =============================================================================
